@@ -70,6 +70,14 @@ def gen(seed, tier):
     for n in nodes:
         n["opts"] = {"save_when": r.choice(["ALWAYS", "NEVER"]), "rechunk_on_save": False}
     nodes[-1]["opts"] = {"save_when": save_when, "rechunk_on_save": r.random() < 0.5}
+    if r.random() < 0.3:
+        # a two-output recorder with its own save policy per output: it saves by default as soon as ONE of its
+        # outputs does
+        sw = {"rec": save_when, "recy": r.choice(["ALWAYS", "TARGET", "EXPLICIT", "NEVER"])}
+        nodes[-1] = {"names": ["rec", "recy"], "kind": "recorderm", "deps": deps,
+                     "opts": {"save_when": sw, "rechunk_on_save": {"rec": r.random() < 0.5, "recy": False}}}
+        if sw["recy"] in ("ALWAYS", "TARGET") and save_when == "NEVER":
+            save_when = sw["recy"]
     cfg = G.gen_proc_config(r, spec, "rec", stored=stored, tier=tier, allow_pool=False)
     w = {"spec": spec, "target": "rec", "cfg": cfg, "stored": stored, "fs_order": 0,
          "est_steps": 500, "fault": None}
